@@ -365,6 +365,10 @@ func (e *ruleEnv) filterFor(field, op, vclass string) (arg string, it astItem, i
 		switch vclass {
 		case "short":
 			return mk(base, strItem(field, op, base))
+		case "edges":
+			p := filepath.Join(e.tmp, e.word(8, false)) + " " // does not exist: not a directory
+			inC07 = false
+			return mk(p, strItem(field, op, p))
 		case "long", "max", "special", "utf8":
 			if field == "dir" {
 				return mk(base, strItem(field, op, base))
@@ -396,6 +400,12 @@ func (e *ruleEnv) filterFor(field, op, vclass string) (arg string, it astItem, i
 			s = e.word(4096, false)
 		case "utf8":
 			s = e.utf8Word()
+		case "edges": // blanks at the edges belong to the value (C07 does not quote: outside its domain)
+			s = []string{" ", "", "  "}[r.Intn(3)] + e.word(3+r.Intn(10), false) + []string{" ", "\t", ""}[r.Intn(3)]
+			if strings.TrimSpace(s) == s {
+				s += " "
+			}
+			inC07 = false
 		default:
 			s = e.word(5+r.Intn(30), true)
 		}
@@ -939,11 +949,20 @@ func ruleRunCmd(args []string) int {
 	w.write(map[string]interface{}{"k": "meta", "family": "rule"})
 	stats := map[string]int{}
 	trace := 0
+	// what Build returned stays what it was: every result is kept and read again at the end
+	type keptBuild struct {
+		trace      int
+		wire, snap []byte
+	}
+	var keptBuilds []keptBuild
 	run := func(rt *ruleText) {
 		trace++
 		line := shellQuote(rt.args)
 		var o buildOutcome
 		kib := allocKiB(func() { o = parseAndBuild(line) })
+		if o.ret == "ok" {
+			keptBuilds = append(keptBuilds, keptBuild{trace, o.wire, append([]byte(nil), o.wire...)})
+		}
 		rec := map[string]interface{}{"k": "build", "trace": trace, "cls": rt.cls, "ast": rt.ast, "line": line, "ret": o.ret,
 			"wire": bytesOf(o.wire), "err": o.err, "c07": rt.c07}
 		w.write(rec)
@@ -1001,6 +1020,16 @@ func ruleRunCmd(args []string) int {
 	for i := 0; i < *random; i++ {
 		run(env.randomRule())
 	}
+	changed, firstChanged := 0, 0
+	for _, kb := range keptBuilds {
+		if string(kb.wire) != string(kb.snap) {
+			changed++
+			if firstChanged == 0 {
+				firstChanged = kb.trace
+			}
+		}
+	}
+	w.write(map[string]interface{}{"k": "kept", "trace": firstChanged, "kept": len(keptBuilds), "changed": changed})
 	w.close()
 	printJSON(map[string]interface{}{"stats": stats})
 	return 0
